@@ -273,13 +273,26 @@ func ruleC01Secondary(w *World, r *Report) {
 					okJ = alloc != nil && errGuardedStrict(f, alloc, st)
 				} else {
 					// carried over from a PDR that already has the mark: the store runs only under that PDR's allocIPFlag
+					isMark := func(v ssa.Value, truth bool) bool {
+						return truth && (strings.HasSuffix(symOf(v).String(), ".allocIPFlag") || loadsField(v, "allocIPFlag"))
+					}
 					okJ = onlyVia(g, st, func(a, b *ssa.BasicBlock) bool {
 						v, truth, ok := boolEdge(a, b)
-						if !ok || !truth {
+						return ok && isMark(v, truth)
+					})
+					// ... or the value stored is a combination of marks (`own || stored`): true only when one
+					// of them is, and false only when the mark it overwrites was false — an assignment that
+					// can clear the PDR's own mark is not a carry-over
+					ownClear := func(v ssa.Value, truth bool) bool {
+						ld, isLd := v.(*ssa.UnOp)
+						if truth || !isLd || ld.Op != token.MUL || !instrDominates(ld, st) {
 							return false
 						}
-						return strings.HasSuffix(symOf(v).String(), ".allocIPFlag") || loadsField(v, "allocIPFlag")
-					})
+						from, ok1 := ld.X.(*ssa.FieldAddr)
+						to, ok2 := st.Addr.(*ssa.FieldAddr)
+						return ok1 && ok2 && from.X == to.X && from.Field == to.Field && len(fieldStores(g, "pdr")["allocIPFlag"]) == 1
+					}
+					okJ = okJ || (boolImplies(st.Val, true, isMark) && boolImplies(st.Val, false, ownClear))
 				}
 				r.check(okJ, "R01.J5", w.FuncName(g), "allocIPFlag set only after a successful pool allocation", w.Pos(st.Pos()), "dominated by LookupOrAllocIP err == nil (or carried over from a marked PDR)", "allocIPFlag can be set without a pool allocation: the session's release path then calls DeallocIP on a nil pool")
 			}
